@@ -32,7 +32,7 @@ Kinds == { "none",
   "repo", "penv_value", "penv_removed", "penv_shadowed",
   \* semantic: record and key
   "rec_alg", "fields_drop_mandatory", "fields_drop_env", "fields_add_env", "fields_add_unknown", "fields_empty",
-  "value_splice", "value_bitflip", "key_other_same_alg", "key_other_alg", "keyset_without_signer", "keyset_empty", "plug_source_suffix",
+  "value_splice", "value_bitflip", "value_attached", "value_attached_tamper", "key_other_same_alg", "key_other_alg", "keyset_without_signer", "keyset_empty", "plug_source_suffix",
   \* non-semantic
   "env_nil_vs_empty", "plugins_nil_vs_empty", "matrix_nil_vs_empty", "plug_source_spelling", "plug_cfg_empty_vs_null",
   "venv_extra_unsigned", "venv_extra_fieldname", "fields_permuted", "fields_duplicate", "keyset_signer_plus_others" }
@@ -40,7 +40,7 @@ SetPlugin(p, i, x) == [p EXCEPT !.l[i] = x]
 \* the presented content / env for a mutation kind; NA when the kind does not apply to this step
 NA == [na |-> TRUE]
 MutContent(o, kind) ==
-    CASE kind = "cmd" -> [o EXCEPT !.command = "echo other"]
+    CASE kind \in {"cmd", "value_attached_tamper"} -> [o EXCEPT !.command = "echo other"]     \* (value_attached_tamper: changed content under a value that carries the original payload)
       [] kind = "env_add" -> [o EXCEPT !.env = Env(FALSE, ("Z" :> "9") @@ o.env.m)]
       [] kind = "env_remove" -> IF "A" \in DOMAIN o.env.m THEN [o EXCEPT !.env = Env(FALSE, [x \in DOMAIN o.env.m \ {"A"} |-> o.env.m[x]])] ELSE NA
       [] kind = "env_change" -> IF "A" \in DOMAIN o.env.m THEN [o EXCEPT !.env.m["A"] = "2"] ELSE NA
@@ -98,7 +98,8 @@ Init ==
       IN /\ pc # NA /\ pv # NA /\ fop # "na"
          /\ c = [orig |-> o, penv |-> pe, key |-> key, kind |-> kind, pc |-> pc, venv |-> pv, fieldop |-> fop,
                  algop |-> IF kind = "rec_alg" THEN "other" ELSE "same",
-                 valueop |-> IF kind = "value_splice" THEN "splice" ELSE IF kind = "value_bitflip" THEN "bitflip" ELSE "same",
+                 valueop |-> IF kind = "value_splice" THEN "splice" ELSE IF kind = "value_bitflip" THEN "bitflip"
+                             ELSE IF kind \in {"value_attached", "value_attached_tamper"} THEN "attach" ELSE "same",
                  keyop |-> CASE kind = "key_other_same_alg" -> "other_same_alg" [] kind = "key_other_alg" -> "other_alg"
                              [] kind = "keyset_without_signer" -> "without_signer" [] kind = "keyset_empty" -> "empty"
                              [] kind = "keyset_signer_plus_others" -> "signer_plus" [] OTHER -> "signer"]
